@@ -134,6 +134,7 @@ pub const LEAF_CAP: usize = 16384 - 24;
 pub fn varint_len(v: usize) -> usize { if v <= 240 { 1 } else if v <= 2287 { 2 } else if v <= 67823 { 3 } else if v <= 16777215 { 4 } else { 5 } }
 pub fn cell_size(klen: usize, vlen: usize) -> usize { klen + varint_len(vlen) + vlen }
 pub fn fits_page(klen: usize, vlen: usize) -> bool { cell_size(klen, vlen) + 8 <= LEAF_CAP }
+pub fn half_ok(klen: usize, vlen: usize) -> bool { 2 * (cell_size(klen, vlen) + 8) <= LEAF_CAP }
 
 #[derive(Debug, PartialEq, Eq, Clone, Copy)]
 pub enum Verdict { Accept, Reject, OutOfScope }
@@ -166,6 +167,10 @@ impl Obs {
 
 impl Oracle {
     pub fn new() -> Oracle { Oracle { map: BTreeMap::new() } }
+    /// an insert may be refused (Err, map unchanged) only when an entry over half a page is involved
+    pub fn refusal_ok(&self, klen: usize, v: &Val) -> bool {
+        !half_ok(klen, v.len as usize) || self.map.iter().any(|(k, x)| !half_ok(k.len(), x.len as usize))
+    }
     /// judge `obs` for `op` and advance the map
     pub fn judge(&mut self, keys: &[Vec<u8>], op: &Op, obs: &Obs) -> Verdict {
         let vobs = |v: &Val| (v.len as i64, v.tag as i64);
@@ -173,17 +178,20 @@ impl Oracle {
             Op::Ins(k, v) => {
                 if !fits_page(keys[*k].len(), v.len as usize) { return Verdict::OutOfScope; }
                 if self.map.contains_key(&keys[*k]) { if *obs == Obs::Err { Verdict::Accept } else { Verdict::Reject } }
-                else if *obs == Obs::Unit { self.map.insert(keys[*k].clone(), *v); Verdict::Accept } else { Verdict::Reject }
+                else if *obs == Obs::Unit { self.map.insert(keys[*k].clone(), *v); Verdict::Accept }
+                else if *obs == Obs::Err && self.refusal_ok(keys[*k].len(), v) { Verdict::Accept } else { Verdict::Reject }
             }
             Op::Iine(k, v) => {
                 if !fits_page(keys[*k].len(), v.len as usize) { return Verdict::OutOfScope; }
                 if self.map.contains_key(&keys[*k]) { if *obs == Obs::Uniq(false) { Verdict::Accept } else { Verdict::Reject } }
-                else if *obs == Obs::Uniq(true) { self.map.insert(keys[*k].clone(), *v); Verdict::Accept } else { Verdict::Reject }
+                else if *obs == Obs::Uniq(true) { self.map.insert(keys[*k].clone(), *v); Verdict::Accept }
+                else if *obs == Obs::Err && self.refusal_ok(keys[*k].len(), v) { Verdict::Accept } else { Verdict::Reject }
             }
             Op::App(k, v) => {
                 if !fits_page(keys[*k].len(), v.len as usize) { return Verdict::OutOfScope; }
                 if let Some((last, _)) = self.map.iter().next_back() { if *last >= keys[*k] { return Verdict::OutOfScope; } }
-                if *obs == Obs::Unit { self.map.insert(keys[*k].clone(), *v); Verdict::Accept } else { Verdict::Reject }
+                if *obs == Obs::Unit { self.map.insert(keys[*k].clone(), *v); Verdict::Accept }
+                else if *obs == Obs::Err && self.refusal_ok(keys[*k].len(), v) { Verdict::Accept } else { Verdict::Reject }
             }
             Op::Upd(k, v) => {
                 if !fits_page(keys[*k].len(), v.len as usize) { return Verdict::OutOfScope; }
